@@ -432,7 +432,7 @@ func scenarios() []scenario {
 	// E: resize among sizes, with content, clean marks and locks
 	{
 		var ops []op
-		for _, sz := range [][2]int{{0, 0}, {1, 1}, {3, 1}, {2, 2}} {
+		for _, sz := range [][2]int{{0, 0}, {1, 1}, {3, 1}, {2, 2}, {2, 1}, {2, 3}, {1, 2}} { // incl. same width / same height changes
 			ops = append(ops, op{kind: "resize", w: sz[0], h: sz[1]})
 		}
 		ops = append(ops, op{kind: "set", x: 0, y: 0, r: 'a', style: 1}, op{kind: "set", x: 1, y: 0, r: '世'}, op{kind: "set", x: 1, y: 1, r: 'b'},
